@@ -52,3 +52,146 @@ def rule_finder_all_words(ctx, m):
     cond = f.text(f.nodes[dos[0]]["cond"])
     r.ob(f.q, "word loop condition", "group_count" in cond and "++id" in cond, "condition `%s` walks all group_count entries" % cond, f.loc(dos[0]), nontrivial=False)
     return r
+
+
+def rule_copy_kind(ctx, m):
+    """X-copykind: copying a tag record keeps its kind.  The copy constructor of TagBit takes the discriminant from the source in
+    its initialiser list; an arm that (re)sets it -- directly or through a Make<K>Tag() helper, whose kind is read from the
+    helper's own body -- may only do so to the kind of every label of that arm (a shared Variable/RawVariable arm must not call
+    MakeVariableTag: a copied {raw:} tag would be rendered escaped)."""
+    r = Rule("X-copykind", "the copy of a tag record has the kind of its source in every arm", floor=6)
+    makers = {}
+    for f in m.functions:
+        if f.inst or f.cls != "Qentem::Tags::TagBit" or not (f.name.startswith("Make") and f.name.endswith("Tag")):
+            continue
+        for i in astq.nodes_of(f, "BinaryOperator"):
+            n = f.nodes[i]
+            if n["op"] == "=" and f.text(n["ch"][0]).replace("this.", "") == "type_":
+                makers[f.name] = f.text(n["ch"][1]).split("::")[-1]
+    cc = [f for f in m.functions if not f.inst and f.cls == "Qentem::Tags::TagBit" and f.kind == "copyctor"]
+    if len(cc) != 1 or len(makers) < 7:
+        r.broke("TagBit copy constructor / Make*Tag helpers not found (%d, %d)" % (len(cc), len(makers)))
+        return r
+    f = cc[0]
+    ctx.note_fn(f)
+    inits = {i_["field"]: f.text(i_["n"]) for i_ in (f.d.get("inits") or []) if i_.get("n", -1) >= 0}
+    from_src = "type_" in inits and inits["type_"].replace(" ", "").strip("{}()") .endswith(".type_")
+    sws = astq.nodes_of(f, "SwitchStmt")
+    if len(sws) != 1:
+        r.broke("TagBit copy constructor: expected one switch over the source kind")
+        return r
+    for labels, stmts in astq.switch_arms(f, sws[0]):
+        names = [(l[0] or "").split("::")[-1] for l in labels]
+        if "default" in names:
+            continue
+        sets = []
+        for s_ in stmts:
+            for c in astq.calls(f, None, s_):
+                nm = f.call_simple_name(c)
+                if nm in makers:
+                    sets.append(makers[nm])
+            for i in astq.nodes_of(f, "BinaryOperator", s_):
+                n = f.nodes[i]
+                if n["op"] == "=" and f.text(n["ch"][0]).replace("this.", "") == "type_":
+                    t = f.text(n["ch"][1])
+                    sets.append("src" if t.replace(" ", "").endswith(".type_") else t.split("::")[-1])
+        if not sets:
+            ok = from_src
+            why = "kind taken from the source in the initialiser list (%s)" % inits.get("type_", "MISSING")
+        else:
+            ok = all(x == "src" or names == [x] for x in sets)
+            why = "arm sets the kind to %s for the labels %s" % (sorted(set(sets)), names)
+        r.ob(f.q, "case " + ",".join(names), ok, why, f.loc(stmts[0]) if stmts else "Include/Tags.hpp:%d" % f.line)
+    return r
+
+
+def rule_case_pairs(ctx, m, files=("Digit.hpp",), pairs=(("E", "UE"),)):
+    """TB-casepair: RFC 8259 writes the exponent marker as e / E.  Wherever the number scanner tests one spelling of a
+    case-insensitive marker (a case label of a switch arm, or an equality inside a condition) it tests the other one in the
+    same arm / the same condition."""
+    r = Rule("TB-casepair", "a test for one spelling of a case-insensitive marker (e/E) also tests the other", floor=3)
+
+    def marker(fn, nid):
+        n = fn.nodes[fn.strip_casts(nid)]
+        nm = n.get("n") or ""
+        t = fn.text(fn.strip_casts(nid))
+        if "DigitChar" in t or "DigitChar" in (n.get("q") or ""):
+            return (nm or t).split("::")[-1]
+        return None
+    for f in m.functions:
+        if f.inst or not any(f.file.endswith("/" + x) for x in files):
+            continue
+        tests = []
+        for sw in astq.nodes_of(f, "SwitchStmt"):
+            for labels, stmts in astq.switch_arms(f, sw):
+                names = set((l[0] or "").split("::")[-1] for l in labels)
+                tests.append((names, stmts[0] if stmts else sw, "switch arm"))
+        for i in f.walk():
+            n = f.nodes[i]
+            if n["k"] == "BinaryOperator" and n["op"] in ("==", "!="):
+                mk = marker(f, n["ch"][1]) or marker(f, n["ch"][0])
+                if mk is None:
+                    continue
+                # the whole condition this comparison belongs to
+                top = i
+                par = f.parents()
+                while par.get(top) is not None and f.nodes[par[top]]["k"] in ("ParenExpr", "BinaryOperator") and \
+                        (f.nodes[par[top]]["k"] == "ParenExpr" or f.nodes[par[top]]["op"] in ("||", "&&")):
+                    top = par[top]
+                names = set()
+                for x in f.walk(top):
+                    nx = f.nodes[x]
+                    if nx["k"] == "BinaryOperator" and nx["op"] in ("==", "!="):
+                        mm = marker(f, nx["ch"][1]) or marker(f, nx["ch"][0])
+                        if mm:
+                            names.add(mm)
+                if (names, top) not in [(t[0], t[1]) for t in tests]:
+                    tests.append((names, top, "condition"))
+        for (names, where, what) in tests:
+            for (lo, up) in pairs:
+                if (lo in names) != (up in names):
+                    ctx.note_fn(f)
+                    r.ob(f.q, "%s testing %s" % (what, sorted(names & {lo, up})), False, "%s is tested without %s: the other spelling of the marker is treated as a foreign character" % (
+                        lo if lo in names else up, up if lo in names else lo), f.loc(where))
+                elif lo in names:
+                    ctx.note_fn(f)
+                    r.ob(f.q, "%s testing %s/%s" % (what, lo, up), True, "both spellings are tested together", f.loc(where))
+    return r
+
+
+def rule_stream_past(ctx, m, files=("Digit.hpp",)):
+    """ZB-past: raw accesses to a stream's buffer (stream.Storage()[i], *p with p walking the buffer) in the number formatter.
+    The formatter's index arithmetic is beyond what the difference-bound domain can *prove* in range, so this rule reports only
+    the converse: an access for which some path establishes index >= stream.Length() (one step of path sensitivity at the join
+    in front of the access).  Such an access lies outside the content of the stream -- and outside its allocation when the stream
+    is full.  First()/Last()/End() are read as Storage(), Storage() + Length() - 1, Storage() + Length()."""
+    from qlib.zone import ContractTable, Contract
+    from qlib import zonecheck
+    from tables.contracts import CONTRACTS
+    r = Rule("ZB-past", "no raw access to the stream's buffer is provably at or beyond Length() on some path", floor=10)
+    for f in m.functions:
+        if f.inst or not f.cfg or not any(f.file.endswith("/" + x) for x in files):
+            continue
+        ps = [p for p in f.params if p.get("ref") and ("Stream" in p["t"]) and not p.get("pconst")]
+        if not ps:
+            continue
+        tab = dict(CONTRACTS)
+        bufs = {}
+        for p in ps:
+            bufs["x:%s.Storage()" % p["n"]] = "%s.Length()" % p["n"]
+        tab[f.q + "/%d" % len(f.params)] = Contract(buffers=bufs, accessor_model="Length")
+        try:
+            obs, stats, _ = zonecheck.analyse(m, f, ContractTable(tab))
+        except Exception as e:   # noqa
+            r.broke("%s: %s" % (f.q, str(e)[:200]))
+            continue
+        n_acc = 0
+        for o in obs:
+            if o.rule != "ZB-read":
+                continue
+            n_acc += 1
+            ctx.note_fn(f)
+            past = bool(o.detail.get("past"))
+            r.ob(f.sig, o.construct, not past, ("index is proven >= Length() on a path: " + o.why) if past else "no path proves the index at or beyond Length() (in-range not decided)", o.loc,
+                 nontrivial=past)
+    return r
